@@ -1,0 +1,57 @@
+//go:build verif
+// +build verif
+
+package overloader
+
+import "sync/atomic"
+
+// Additional verification accessors (build tag verif only). Gate points added with this file:
+// conn.take.added (after take's AddInt32 on tmp), conn.take.checked (after the comparison with
+// lim, on both branches), conn.release.mid (between release's two decrements),
+// qps.take.loaded (between take's load and add).
+
+// Tmp returns the tentative counter of a connection limiter.
+func (v *VerifConn) Tmp() int32 { return atomic.LoadInt32(&v.c.tmp) }
+
+// Limit returns the connection limit.
+func (v *VerifConn) Limit() int32 { return v.c.getLimit() }
+
+// Update calls the rate limiter's update and stops the ticker it may have started.
+func (v *VerifQPS) Update(maxQPS int32, interval int64) {
+	v.q.update(maxQPS, durationOf(interval))
+	v.q.stopTicker()
+}
+
+// VerifConn returns a handle on the plugin's current connection limiter (nil when unlimited).
+func (o *Overloader) VerifConn() *VerifConn {
+	o.connLimiterLock.RLock()
+	defer o.connLimiterLock.RUnlock()
+	if o.connLimiter == nil {
+		return nil
+	}
+	return &VerifConn{c: o.connLimiter}
+}
+
+// VerifTotalQPS stops the ticker of the plugin's total rate limiter and returns a handle on it
+// (nil when unlimited), so that refill ticks are issued by the harness.
+func (o *Overloader) VerifTotalQPS() *VerifQPS {
+	o.totalQPSLimiterLock.RLock()
+	defer o.totalQPSLimiterLock.RUnlock()
+	if o.totalQPSLimiter == nil {
+		return nil
+	}
+	o.totalQPSLimiter.stopTicker()
+	return &VerifQPS{q: o.totalQPSLimiter}
+}
+
+// VerifHandlerQPS does the same for the rate limiter of one service method.
+func (o *Overloader) VerifHandlerQPS(serviceMethod string) *VerifQPS {
+	o.handlerQPSLimiterLock.RLock()
+	defer o.handlerQPSLimiterLock.RUnlock()
+	l, ok := o.handlerQPSLimiter[serviceMethod]
+	if !ok {
+		return nil
+	}
+	l.stopTicker()
+	return &VerifQPS{q: l}
+}
